@@ -321,7 +321,7 @@ fn honest_sample(sim: &Sim, p: usize, rng: &mut Rng) -> (Proto, Bytes, Kind) {
 /// replaced by the hash of a side-branch block (the hashes in BlockFilters are not committed by
 /// the filter hashes). If that position matches a registered script, the planted hash ends up
 /// in the matched-blocks record next to real ones.
-fn plant_side_branch_block(sim: &mut Sim, p: usize, rng: &mut Rng) -> Vec<(Proto, Bytes, Tag)> {
+fn plant_side_branch_block(sim: &mut Sim, p: usize, rng: &mut Rng, announce: bool) -> Vec<(Proto, Bytes, Tag)> {
     let mut out = Vec::new();
     let c = match sim.client.as_ref() {
         Some(c) => c,
@@ -346,11 +346,18 @@ fn plant_side_branch_block(sim: &mut Sim, p: usize, rng: &mut Rng) -> Vec<(Proto
     let n = mf + 1 + i as u64;
     // the side-branch block of that height if there is one, otherwise the side tip
     let planted = match sim.world.block_opt(side, n) {
-        Some(b) if sim.world.block_opt(view.branch, n).map(|x| x.hash()) != Some(b.hash()) => b.hash(),
+        Some(b) if !announce && sim.world.block_opt(view.branch, n).map(|x| x.hash()) != Some(b.hash()) => b.hash(),
         _ => sim.world.block(side, sim.world.tip_number(side)).hash(),
     };
     if sim.world.number_on_branch(view.branch, &planted, view.height).is_some() {
         return out; // not a side-branch block after all
+    }
+    if announce {
+        // the peer first announces that block as its last state (recorded, never proven) ...
+        let tip = sim.world.block(side, sim.world.tip_number(side)).verifiable();
+        let m = lc_msg(packed::SendLastState::new_builder().last_header(tip).build());
+        out.push((Proto::LightClient, m.as_bytes(), crafted(Kind::SendLastState, "side-branch tip announced as last state")));
+        sim.stat("fault.byz.side_branch_tip_announced");
     }
     hashes[i] = planted.clone();
     sim.peers[p].planted.push(planted);
@@ -459,7 +466,11 @@ pub fn inject(sim: &mut Sim, p: usize, spec: &InjectSpec) -> Vec<(Proto, Bytes, 
         return poison_cached_hashes(sim, p);
     }
     if spec.kind == 101 {
-        return plant_side_branch_block(sim, p, &mut rng);
+        return plant_side_branch_block(sim, p, &mut rng, false);
+    }
+    if spec.kind == 104 {
+        // ... and then plants exactly that block in a filters answer
+        return plant_side_branch_block(sim, p, &mut rng, true);
     }
     if spec.kind == 103 {
         if let Some(hash) = plant_header(sim, p, &mut rng) {
@@ -1060,6 +1071,31 @@ fn mutate_filters(sim: &Sim, p: usize, m: &packed::BlockFilters, op: u32, rng: &
     let mut filters: Vec<packed::Bytes> = m.filters().into_iter().collect();
     let mut start2 = start;
     let note;
+    if op == 2002 {
+        // the genuine filters (and block hashes) of the blocks one check-point interval - or a
+        // few blocks - lower, under the start number the client waits for
+        let interval = sim.plan.knobs.check_point_interval;
+        let k = if rng.chance(2, 3) { interval } else { rng.range(1, interval.max(2)) };
+        if start > k {
+            let cfg = sim.peer_cfg(p);
+            if let Some(lower) = server::block_filters(&sim.world, view, &cfg, start - k) {
+                let n = filters.len().min(lower.filters().len());
+                if n > 0 {
+                    let f: Vec<packed::Bytes> = lower.filters().into_iter().take(n).collect();
+                    let h: Vec<Byte32> = lower.block_hashes().into_iter().take(n).collect();
+                    return (
+                        packed::BlockFilters::new_builder()
+                            .start_number(start.pack())
+                            .block_hashes(h.pack())
+                            .filters(f.pack())
+                            .build(),
+                        format!("content of the batch {} blocks lower under the awaited start number", k),
+                    );
+                }
+            }
+        }
+        return (m.clone(), String::new());
+    }
     match op % 8 {
         0 if !filters.is_empty() => {
             let i = rng.usize_below(filters.len());
